@@ -288,7 +288,17 @@ def run(E: Engine, rep: Report, tier: str) -> dict:
     scans = [x for l in _S2(E, dcp).log for x in _sym2.conj_of(l.cond) if "config_slm_mask" in _sh13(x, 400)]
     ok_xy = bool(scans) and all(any(_sym2.mk_not(("attr", ("name", "self"), "_in_xy")) in _sym2.conj_of(d_) if d_[0] == "and" else False for d_ in ([x] if x[0] != "or" else list(x[1:]))) or any(_sym2.mk_not(("attr", ("name", "self"), "_in_xy")) in _sym2.conj_of(l2.cond) for l2 in _S2(E, dcp).log if x in _sym2.conj_of(l2.cond)) for x in scans)
     rep.check(ok_xy, "MODE", "Sequence.declared_channels|stored-slm-mask-declares-a-dmm-only-outside-xy", "`call.name == 'config_slm_mask' and not self._in_xy`", "declared_channels counts a stored config_slm_mask call as a DMM declaration in XY mode too: a parametrized XY sequence lists 'dmm_0' next to its Microwave channel and accepts add_dmm_detuning / delay on it", E.where(dcp))
-    rep.floor("MODE", 4)
+    # measure() records the measurement as its LAST step: everything that can still stop the call (the unsupported-basis
+    # error, and the "basis not addressed" warning, which is an exception under -W error / pytest's error filter)
+    # comes before the write, otherwise the sequence reads as measured although the call failed and was not stored
+    mf = E.method(SEQ, "measure")
+    mlog = _S2(E, mf, inline=False).log
+    w_idx = [i for i, l in enumerate(mlog) if l.kind == "store" and l.target is not None and l.target[0] == "attr" and l.target[1] == ("name", "self") and l.target[2] in ("_measurement", "_param_measurement")]
+    if not w_idx:
+        raise AnalysisError("anchor: Sequence.measure no longer writes _measurement / _param_measurement")
+    late = [l for i, l in enumerate(mlog) if i > min(w_idx) and (l.kind == "raise" or (l.kind == "call" and l.target is not None and l.target[0] == "attr" and l.target[2] == "warn"))]
+    rep.check(not late, "MODE", "Sequence.measure|measurement-recorded-last", "raises and warnings precede the write of the measurement", f"Sequence.measure records the measurement and then still runs `{_sh13(late[0].value, 80) if late else ''}`: when that stops the call (a warning is an exception under -W error) the measurement is set but the call is not stored -- every later timeline change is refused although no measurement took place", E.where(mf, late[0].node if late else None))
+    rep.floor("MODE", 5)
     return {
         "functions_analysed": len(E.S._callables),
         "timeline_writing_public_methods": sorted(timeline_methods),
